@@ -163,6 +163,34 @@ def _value_symptom(span, val, typ):
     return 'differs'
 
 
+def _open_comment(res, tk, text, toks, case):
+    """full-sheet mode completes an unterminated comment: the tokens are those of the text with the terminator written out.
+    The reference is the tokenizer itself in the other mode (judged by the clauses above) on text + '*/'; it applies when
+    that token list ends with a comment that starts inside the text and whose only terminator is the appended one."""
+    try:
+        ref = list(tk.tokenize(text + '*/', fullsheet=False))
+    except Exception:
+        return  # C05.total of that text
+    if not ref or ref[-1][0] != 'COMMENT' or ref[0][0] == 'BOM':
+        return
+    typ, val, line, col = ref[-1]
+    off = ref_escape.offset_of(ref_escape.line_starts(text + '*/'), line, col, len(text) + 2)
+    if off is None or off > len(text) - 2 or text[off:off + 2] != '/*' or '*/' in text[off + 2:]:
+        return
+    res.clauses['C05.fullsheet'] += 1
+    res.counters['fullsheet.open_comment_compared'] += 1
+    # (comment values may or may not have their escapes decoded, see ASSUMPTIONS: compared decoded)
+    def norm(t):
+        return (t[0], ref_escape.decode(t[1]) if t[0] == 'COMMENT' else t[1], t[2], t[3])
+
+    got = [norm(t) for t in toks if t[0] != 'EOF']
+    want = [norm(t) for t in ref]
+    if got != want:
+        i = next((k for k, (a, b) in enumerate(zip(got, want)) if a != b), min(len(got), len(want)))
+        res.violation('C05.fullsheet', 'unterminated-comment-not-completed-as-a-whole|' + ('nested-opener' if text.count('/*') > 1 else 'single-opener'),
+                      case, [list(t) for t in want[max(0, i - 1):i + 2]], [list(t) for t in got[max(0, i - 1):i + 2]])
+
+
 def _run_text(res, tk, text, case_kind='text'):
     nontrivial = False
     for fs in (False, True):
@@ -181,6 +209,8 @@ def _run_text(res, tk, text, case_kind='text'):
             res.violation('C05.total', guard.crash_site(e), case, 'a token list', repr(e))
             continue
         judge(res, text, fs, toks, case)
+        if fs and '/*' in text:
+            _open_comment(res, tk, text, toks, case)
         types = tuple(t[0] for t in toks)
         res.outcomes.add(h64(repr(types)))
         res.sets['types'].update(types)
@@ -528,6 +558,8 @@ def replay(case, tier, seed):
                 res.violation('C05.total', guard.crash_site(e), case, 'a token list', repr(e))
             else:
                 judge(res, text, fs, toks, case)
+                if fs and '/*' in text:
+                    _open_comment(res, tk, text, toks, case)
         elif case['kind'] == 'tokens':
             by = {m[0]: m for m in MENU}
             seq = tuple(by[s] for s in case['spellings'])
